@@ -27,6 +27,7 @@ class Body:
                 self.names.setdefault(pl["l"], d["name"])
         self._defs = None
         self._preds = None
+        self.inline_named = False  # expand single-definition user variables too
 
     # ---- CFG -----------------------------------------------------------------
     def term(self, bb):
@@ -201,7 +202,7 @@ class Body:
         ds = self.defs().get(l, [])
         whole = [d for d in ds if d[2] in ("assign", "call", "arg")]
         partial = [d for d in ds if d[2] == "partial"]
-        if l in self.names or len(whole) != 1 or partial:
+        if (l in self.names and not self.inline_named) or len(whole) != 1 or partial:
             # user variable or multiply defined: stop here
             if len(whole) == 1 and not partial and whole[0][2] == "arg":
                 return ("arg", self.local_name(l), l)
@@ -248,6 +249,15 @@ class Body:
         if k == "Repeat":
             return ("repeat", self.expr_of_operand(rv["op"], depth), rv["n"])
         return ("rv?", k)
+
+    def deep(self, fn, *a, **kw):
+        """run an expr_of_* function with single-definition user variables expanded"""
+        old = self.inline_named
+        self.inline_named = True
+        try:
+            return fn(*a, **kw)
+        finally:
+            self.inline_named = old
 
     # ---- queries -------------------------------------------------------------
     def calls(self, pred=None):
